@@ -8,7 +8,7 @@ From Coq Require Import List Arith.
 From PM Require Import Model.Data Model.Mark Model.Tree Model.Step Spec.Tokens
   Proofs.ReplaceValid Proofs.SliceSides Proofs.TokenBasics Proofs.ReplaceTokens Proofs.SliceShape Proofs.TokenLaws
   Proofs.AroundLaws Proofs.ContentBetween Proofs.StructProofs.
-From PM Require Import Model.Resolve Model.StructOps.
+From PM Require Import Model.Resolve Model.StructOps Proofs.HelperRanges.
 Import ListNotations.
 
 Theorem C12_structure_only_step_keeps_leaves : forall s from to sl structure doc d',
@@ -80,3 +80,16 @@ Theorem C12_lift_keeps_leaves : forall s, is_leaf_ty s (s_text s) = true -> fora
   leaves (DT s d') = leaves (DT s doc).
 Proof. exact lift_step_structure_only. Qed.
 Print Assumptions C12_lift_keeps_leaves.
+
+(* ---- the helpers return in-range results ----
+   whatever position join_point / insert_point answer lies within 0 .. size of the document (the candidates are the
+   given position and before(d) / after(d) of its ancestors, which Proofs/Accessors.v locates in the token sequence) *)
+Theorem C12_join_point_in_range : forall s doc pos dir p,
+  join_point s doc pos dir = Ok (Some p) -> p <= frag_size s (node_content doc).
+Proof. exact join_point_in_range. Qed.
+Print Assumptions C12_join_point_in_range.
+
+Theorem C12_insert_point_in_range : forall s doc pos ty p,
+  insert_point s doc pos ty = Ok (Some p) -> p <= frag_size s (node_content doc).
+Proof. exact insert_point_in_range. Qed.
+Print Assumptions C12_insert_point_in_range.
